@@ -1100,6 +1100,9 @@ impl SendKind {
             .resolve_package(&mut response, request, host, address)
             .await;
 
+        // A protocol switch (e.g. to WebSocket) is carried out by the future; it isn't a body.
+        let switching_protocols = response.status() == StatusCode::SWITCHING_PROTOCOLS;
+
         match self {
             SendKind::Send(response_pipe) => {
                 // Send response
@@ -1116,8 +1119,12 @@ impl SendKind {
                     ret_log_app_error!(body_pipe.send_with_maybe_close(body, false).await);
                 }
 
+                // What the future writes is the (rest of the) body:
+                // a response to HEAD ends with the head, however the body is produced.
                 if let Some((mut future, _)) = future {
-                    future.call(&mut body_pipe, host).await;
+                    if request.method() != Method::HEAD || switching_protocols {
+                        future.call(&mut body_pipe, host).await;
+                    }
                 }
 
                 // Process post extensions
